@@ -90,6 +90,13 @@ Registry(pre, e, post) ==
      \cup (IF \A n \in NodesOf(pre) \ old : (n \in post.store) = (n \in pre.store) THEN {} ELSE {"unrelated-registry-changed"})
      \cup (IF e.op = "import_doc" /\ ~(fresh \subseteq post.store /\ fresh = live) THEN {"import-registers"} ELSE {})
 
+(* prune of a parentless root that the operation itself reports as removed (an unknown element name): the whole tree is
+   what was discarded - nothing of it stays registered, nothing else changes *)
+RegistryWhole(pre, e, post) ==
+  LET old == Desc(pre.kids, e.args[1]) IN
+     (IF old \cap post.store = {} THEN {} ELSE {"discarded-node-still-registered"})
+  \cup (IF \A n \in NodesOf(pre) \ old : (n \in post.store) = (n \in pre.store) THEN {} ELSE {"unrelated-registry-changed"})
+
 Clauses(t, k) ==
   LET e == Traces[t].events[k]  pre == PreOf(t, k) IN
   IF e.op = "q"
@@ -99,6 +106,7 @@ Clauses(t, k) ==
   ELSE IF ~(NoSharing(pre.kids) /\ Acyclic(pre.kids)) THEN {}     \* the caller already broke the usage constraint (a node in two
                                                                  \* child lists): outside the quantifier, nothing is claimed
   ELSE IF e.op \in {"import_doc", "discarding"} THEN Registry(pre, e, Load(e.post))
+  ELSE IF e.op = "discarding_whole" THEN RegistryWhole(pre, e, Load(e.post))
   ELSE IF ~Precond(pre, e) THEN {"HARNESS-precondition"}
   ELSE LET exp == Expect(pre, e)  post == Load(e.post) IN
        IF exp.ok # B(e.ok) THEN {IF exp.ok THEN "raised-unexpectedly" ELSE "did-not-raise"}
@@ -118,8 +126,13 @@ MemoNext(e) == IF ~IsRO(e) THEN <<>>
                ELSE IF e.fn \in DOMAIN memo THEN memo ELSE memo @@ (e.fn :> e.res)
 
 RegistryGrew(e) == IsRO(e) /\ "regdelta" \in DOMAIN e /\ e.regdelta # 0        \* the whole registry, not only this tree's ids
+(* the stored parent pointers are not a state component of the model (see Forest.tla); a read-only call must leave
+   them as they are all the same *)
+ParentLinkMoved(t, k) == LET e == Traces[t].events[k]  pre == IF k = 1 THEN Traces[t].init ELSE Traces[t].events[k-1].post IN
+                         IsRO(e) /\ "plink" \in DOMAIN e.post /\ "plink" \in DOMAIN pre /\ e.post.plink # pre.plink
 Judge(t, k) == LET c == Clauses(t, k) \cup (IF MemoClash(Traces[t].events[k]) THEN {"result-depends-on-what-ran-before"} ELSE {})
-                         \cup (IF RegistryGrew(Traces[t].events[k]) THEN {"registry-size-changed"} ELSE {}) IN
+                         \cup (IF RegistryGrew(Traces[t].events[k]) THEN {"registry-size-changed"} ELSE {})
+                         \cup (IF ParentLinkMoved(t, k) THEN {"parent-link"} ELSE {}) IN
                IF c = {} THEN TRUE ELSE PrintT(ToJson([k |-> "REJECT", trace |-> t, event |-> k, clauses |-> c]))
 
 Init == tid = 1 /\ l = 0 /\ memo = <<>>
